@@ -2084,14 +2084,18 @@ fn line_size(t: &[&str]) -> Option<usize> {
             }
         }
     }
-    for s in t.iter().skip(2).take(2) {
-        if let Ok(n) = s.parse::<usize>() {
-            if n <= 32 {
-                return Some(n);
-            }
-        }
+    size_pos(t).and_then(|i| t.get(i)).and_then(|s| s.parse::<usize>().ok())
+}
+
+/// where a line without tables carries its number of variables as a plain integer
+fn size_pos(t: &[&str]) -> Option<usize> {
+    match t[0] {
+        "fromhex" | "itera" | "iter" => Some(2),
+        "ctor" | "fctor" => Some(3),
+        "sop" | "esop" | "soes" if matches!(t.get(1).copied(), Some("and" | "or" | "not" | "xor" | "value" | "tolut" | "info" | "display" | "fromcubes" | "expr")) => Some(2),
+        "cube" | "ecube" if matches!(t.get(1).copied(), Some("all" | "alla" | "minterm")) => Some(2),
+        _ => None,
     }
-    None
 }
 
 /// the line with its size `a` replaced by `b`, other arguments kept (tables: only between sizes that
@@ -2119,7 +2123,7 @@ fn resize_line(l: &str, a: usize, b: usize) -> Option<String> {
                     continue;
                 }
             }
-        } else if (i == 2 || i == 3) && !changed && s.parse::<usize>().ok() == Some(a) {
+        } else if Some(i) == size_pos(&t) && !changed && s.parse::<usize>().ok() == Some(a) {
             // other arguments (variable indices, cube masks) stay valid only when the size grows
             if b < a && t[0] != "fromhex" {
                 return None;
